@@ -72,6 +72,7 @@ type Applied struct {
 	DB      int
 	Args    [][]byte
 	InExec  bool
+	ExecID  int // number of the EXEC that ran it (0 = outside a transaction)
 	IsError bool
 	Reply   string
 }
@@ -116,6 +117,8 @@ type Server struct {
 	Scripts []string
 	seq     int
 	connSeq int
+	execSeq int
+	curExec int
 	// Fail, if set, may return an error reply (without "-", e.g. "OOM command not allowed") to send instead of executing.
 	Fail func(connID, db int, args [][]byte) string
 	// OnConn, if set, takes over a connection entirely (used by the replication source).
@@ -318,7 +321,7 @@ func (sv *Server) logApplied(cn *ConnState, args [][]byte, inExec bool, reply []
 	if len(reply) > 0 {
 		r = string(reply[:minInt(len(reply), 40)])
 	}
-	sv.Applied = append(sv.Applied, Applied{Seq: sv.seq, T: sv.S.Now(), Conn: cn.ID, DB: cn.DB, Args: cp, InExec: inExec, IsError: len(reply) > 0 && reply[0] == '-', Reply: r})
+	sv.Applied = append(sv.Applied, Applied{Seq: sv.seq, T: sv.S.Now(), Conn: cn.ID, DB: cn.DB, Args: cp, InExec: inExec, ExecID: sv.curExec, IsError: len(reply) > 0 && reply[0] == '-', Reply: r})
 }
 
 func minInt(a, b int) int {
@@ -370,9 +373,12 @@ func (sv *Server) dispatch(cn *ConnState, args [][]byte) []byte {
 		}
 		// atomic: no scheduling point between the queued commands
 		var parts [][]byte
+		sv.execSeq++
+		sv.curExec = sv.execSeq
 		for _, a := range q {
 			parts = append(parts, sv.execute(cn, a, true))
 		}
+		sv.curExec = 0
 		return array(parts...)
 	}
 	if cn.Multi {
@@ -1184,4 +1190,107 @@ func (sv *Server) info(section string) string {
 		sb.WriteString("# Cluster\r\ncluster_enabled:0\r\n")
 	}
 	return sb.String()
+}
+
+// NewDetached returns a keyspace-only model (no network): a reference interpreter for oracles.
+func NewDetached() *Server {
+	sv := &Server{Name: "reference", DBs: map[int]map[string]*Entry{}, NumDBs: 16, Version: "5.0.7", RDBVersion: 9, RestoreReplace: true, RestoreIdleFreq: true}
+	sv.KnownType = func(t int) bool { return (t >= 0 && t <= 5) || (t >= 9 && t <= 15) }
+	return sv
+}
+
+// Apply executes one command in db on a detached model and returns the raw reply.
+func (sv *Server) Apply(db int, args [][]byte) []byte {
+	cn := &ConnState{DB: db, Authed: true}
+	return sv.run(cn, args)
+}
+
+// Snapshot renders the live keyspace (without keys matching skip) in a canonical text form.
+func (sv *Server) Snapshot(skip func(db int, key string) bool) map[string]string {
+	out := map[string]string{}
+	for db := range sv.DBs {
+		for _, k := range sv.Keys(db) {
+			if skip != nil && skip(db, k) {
+				continue
+			}
+			e := sv.Get(db, k)
+			if e == nil {
+				continue
+			}
+			out[fmt.Sprintf("db%d/%q", db, k)] = renderEntry(e)
+		}
+	}
+	return out
+}
+
+func renderEntry(e *Entry) string {
+	var sb strings.Builder
+	v := e.Val
+	fmt.Fprintf(&sb, "%s exp=%d ", v.Kind, e.ExpireAt)
+	switch v.Kind {
+	case rc.KString:
+		fmt.Fprintf(&sb, "%q", v.Str)
+	case rc.KList:
+		for _, x := range v.List {
+			fmt.Fprintf(&sb, "%q,", x)
+		}
+	case rc.KSet:
+		var xs []string
+		for _, x := range v.Set {
+			xs = append(xs, string(x))
+		}
+		sort.Strings(xs)
+		fmt.Fprintf(&sb, "%q", xs)
+	case rc.KHash:
+		var xs []string
+		for _, x := range v.Hash {
+			xs = append(xs, fmt.Sprintf("%q=%q", x.F, x.V))
+		}
+		sort.Strings(xs)
+		sb.WriteString(strings.Join(xs, ","))
+	case rc.KZSet:
+		var xs []string
+		for _, x := range v.ZSet {
+			xs = append(xs, fmt.Sprintf("%q=%v", x.M, x.S))
+		}
+		sort.Strings(xs)
+		sb.WriteString(strings.Join(xs, ","))
+	case rc.KStream:
+		fmt.Fprintf(&sb, "stream(%d bytes)", len(v.Stream))
+	}
+	return sb.String()
+}
+
+// DiffSnapshots returns a description of the first difference, or "".
+func DiffSnapshots(got, want map[string]string) string {
+	var keys []string
+	for k := range want {
+		keys = append(keys, k)
+	}
+	for k := range got {
+		if _, ok := want[k]; !ok {
+			keys = append(keys, k)
+		}
+	}
+	sort.Strings(keys)
+	for _, k := range keys {
+		g, okg := got[k]
+		w, okw := want[k]
+		switch {
+		case !okg:
+			return fmt.Sprintf("%s is missing (reference: %s)", k, clipStr(w))
+		case !okw:
+			return fmt.Sprintf("%s exists (%s) but must not", k, clipStr(g))
+		case g != w:
+			return fmt.Sprintf("%s = %s, reference has %s", k, clipStr(g), clipStr(w))
+		}
+	}
+	return ""
+}
+
+func clipStr(s string) string {
+	if len(s) > 160 {
+		return s[:160] + "..."
+	}
+	return s
 }
